@@ -8,6 +8,7 @@
 -/
 import TaffyVerif.Generated.GridCoords
 import TaffyVerif.Model.GridPlacement
+import TaffyVerif.Model.GridSizing
 
 namespace TieGrid
 open GridPlacement
@@ -39,6 +40,44 @@ theorem implied_negative_eq :
 theorem implied_positive_eq :
     Gen.Grid.OriginZeroLine.implied_positive_implicit_tracks = impliedPositiveImplicitTracks := by
   funext l e; rfl
+
+theorem ok_bind' {α β : Type} (a : α) (f : α → Outcome β) : (Outcome.ok a >>= f) = f a := rfl
+theorem panic_bind' {α β : Type} (m : String) (f : α → Outcome β) : (Outcome.panic m >>= f) = .panic m := rfl
+theorem overflow_bind' {α β : Type} (f : α → Outcome β) : (Outcome.overflow >>= f) = .overflow := rfl
+theorem outOfFuel_bind' {α β : Type} (f : α → Outcome β) : (Outcome.outOfFuel >>= f) = .outOfFuel := rfl
+
+theorem i16_ok {x n : Int} (h : i16 x = .ok n) : n = x := by
+  unfold i16 at h
+  split at h
+  · cases h; rfl
+  · cases h
+
+/-- `OriginZeroLine::into_track_vec_index` (the two `assert!`s; the model states them as the negated tests) -/
+theorem into_track_vec_index_eq : Gen.Grid.OriginZeroLine.into_track_vec_index = GridModel.intoTrackVecIndex := by
+  funext l c
+  unfold Gen.Grid.OriginZeroLine.into_track_vec_index GridModel.intoTrackVecIndex
+  cases h : i16 c.negativeImplicit with
+  | ok n =>
+    simp only [ok_bind']
+    apply bind_congr'; intro negN
+    by_cases h1 : l < negN
+    · rw [if_neg (by omega), if_pos h1]
+    · rw [if_pos (by omega), if_neg h1]
+      apply bind_congr'; intro s
+      apply bind_congr'; intro s16
+      by_cases h2 : l > s16
+      · rw [if_neg (by omega), if_pos h2]
+      · rw [if_pos (by omega), if_neg h2]
+  | panic m => rfl
+  | overflow => rfl
+  | outOfFuel => rfl
+
+/-- `OriginZeroLine::try_into_track_vec_index` -/
+theorem try_into_track_vec_index_eq :
+    Gen.Grid.OriginZeroLine.try_into_track_vec_index = GridModel.tryIntoTrackVecIndex := by
+  funext l c
+  unfold Gen.Grid.OriginZeroLine.try_into_track_vec_index GridModel.tryIntoTrackVecIndex
+  rw [into_track_vec_index_eq]
 
 /-! ### grid_track_counts.rs -/
 
